@@ -1,10 +1,15 @@
 #!/bin/bash
-# usage: runseeds.sh C11 C12 ...
+# usage: [SEEDBASE=/tmp/seed] [OFFSET=0] runseeds.sh C11 C12 ...
+# confirms every seed found under $SEEDBASE/<prop>/seed{1,2}, runs the
+# property's quick check against it and installs it as /verif/seeded/<prop>-<n+OFFSET>
+BASE=${SEEDBASE:-/tmp/seed}
+OFF=${OFFSET:-0}
 for p in "$@"; do for n in 1 2; do
-  d=/tmp/seed/$p/seed$n
+  d=$BASE/$p/seed$n
   [ -f $d/patch.diff ] || continue
-  timeout 1500 /verif/selftest/seedcheck.py $d --install $p-$n > /tmp/sc-$p-$n.json 2>&1
-  /venv/bin/python - /tmp/sc-$p-$n.json <<'PY'
+  k=$((n+OFF))
+  timeout 2400 /verif/selftest/seedcheck.py $d --install $p-$k > /tmp/sc-$p-$k.json 2>&1
+  /venv/bin/python - /tmp/sc-$p-$k.json <<'PY'
 import sys,json,re
 txt=open(sys.argv[1]).read()
 m=re.search(r'\{\n.*\n\}', txt, re.S)
